@@ -785,18 +785,21 @@ def migrate_v0_to_v1(old_config_dir, skip_confirm=False):
     try:
         os.makedirs(tally_dir, exist_ok=True)
 
-        # Move config directory
-        new_config = os.path.join(tally_dir, 'config')
-        print(f"  Moving config/ -> tally/config/")
-        shutil.move(old_config_dir, new_config)
-
-        # Move data and output directories if they exist
+        # Move data and output directories first (if they exist). The config directory
+        # goes last: as long as ./config is in place an interrupted migration is still
+        # detected as the old layout, and simply running the command again finishes it
+        # (with config moved first, the budget was stuck: ./tally/config, but ./data).
         for subdir in ['data', 'output']:
             old_path = os.path.abspath(subdir)
             if os.path.isdir(old_path):
                 new_path = os.path.join(tally_dir, subdir)
                 print(f"  Moving {subdir}/ -> tally/{subdir}/")
                 shutil.move(old_path, new_path)
+
+        # Move config directory
+        new_config = os.path.join(tally_dir, 'config')
+        print(f"  Moving config/ -> tally/config/")
+        shutil.move(old_config_dir, new_config)
 
         # Write schema version marker
         schema_file = os.path.join(new_config, '.tally-schema')
